@@ -25,6 +25,21 @@ fn main() {
     if args[0] == "selftest" {
         std::process::exit(pool::on_fresh_thread(1, || selftest::run()));
     }
+    if args[0] == "c07-worker" {
+        let rest: Vec<String> = args[1..].to_vec();
+        std::process::exit(pool::on_fresh_thread(1, move || engines::c07::worker(&rest)));
+    }
+    if args[0] == "c07-case" {
+        let thorough = args[1] == "thorough";
+        let i: u64 = args[2].parse().unwrap();
+        let sp = engines::c07::Space::new(thorough);
+        let (desc, files, no_std) = sp.case(i);
+        println!("{} no_std={}", desc, no_std);
+        for (k, v) in &files {
+            println!("--- {}\n{}", k, v);
+        }
+        return;
+    }
     if args[0] == "corpus" {
         std::process::exit(pool::on_fresh_thread(1, || selftest::corpus()));
     }
@@ -71,6 +86,10 @@ fn main() {
                 run = Run::new("C16", &tier, "exploration");
                 engines::c16::run(&mut run);
             }
+            "C07" => {
+                run = Run::new("C07", &tier, "fault_enumeration");
+                engines::c07::run(&mut run);
+            }
             "C13" => {
                 run = Run::new("C13", &tier, "model_checking");
                 engines::c13::run(&mut run);
@@ -101,6 +120,7 @@ fn replay(dir: &str) -> i32 {
         "c17" => engines::c17::replay(case),
         "c13" => engines::c13::replay(case),
         "faults" => engines::faults::replay(case),
+        "c07" => engines::c07::replay(case),
         "c16" | "c16-disk" => engines::c16::replay(case),
         "c15" => engines::c15::replay(case),
         "faults-files" => engines::faults::replay_files(case),
